@@ -1,0 +1,7 @@
+//go:build !verif
+
+package parser
+
+type verifState struct{}
+
+func (p *Parser) verifTick() {}
